@@ -22,7 +22,7 @@ func init() {
 
 var c09Functions = []string{
 	"layout.(*ColumnDetector).createColumnsFromGaps", "layout.(*ColumnDetector).validateColumns", "layout.(*ColumnDetector).separateSpanningFragments",
-"layout.filterStraySpanningContent", "layout.(*LineDetector).groupIntoLines", "layout.(*LineDetector).buildLines",
+	"layout.filterStraySpanningContent", "layout.(*LineDetector).groupIntoLines", "layout.(*LineDetector).buildLines",
 	"layout.(*ParagraphDetector).groupIntoParagraphs", "layout.(*BlockDetector).groupLinesIntoBlocks", "layout.(*BlockDetector).mergeOverlappingBlocks",
 	"layout.(*BlockDetector).validateBlocks", "layout.(*Analyzer).buildElementTree",
 	"tabula.(*Extractor).assembleText", "tabula.(*Extractor).extractByColumn", "tabula.(*Extractor).extractWithParagraphs", "tabula.(*Extractor).extractPreserveLayout",
@@ -31,10 +31,10 @@ var c09Functions = []string{
 
 // acceptedSkips: skips that were read and are not content loss. Key: function + "|" + condition signature.
 var acceptedSkips = map[string]string{
-	"rag.(*DocumentChunker).chunkPage|\"no case of the type switch\"": "the type switch is exhaustive over model.Element implementations (decided by R12.1), so no element takes this path",
-	"layout.(*Analyzer).buildElementTree|": "paragraphs whose box overlaps a heading or list are re-emitted by that heading/list element, which is built from the same lines (de-duplication; assumption: the overlapping element carries the paragraph's text)",
-	"layout.(*ColumnDetector).separateSpanningFragments|Width,X":                              "partition: a fragment that is not spanning is appended to the column list in the complementary branch of the same test",
-	"layout.(*ColumnDetector).separateSpanningFragments|Text,Width,X,isWhitespaceOnly()":      "bounding-line bookkeeping loop, not the partition loop",
+	"rag.(*DocumentChunker).chunkPage|\"no case of the type switch\"":                    "the type switch is exhaustive over model.Element implementations (decided by R12.1), so no element takes this path",
+	"layout.(*Analyzer).buildElementTree|":                                               "paragraphs whose box overlaps a heading or list are re-emitted by that heading/list element, which is built from the same lines (de-duplication; assumption: the overlapping element carries the paragraph's text)",
+	"layout.(*ColumnDetector).separateSpanningFragments|Width,X":                         "partition: a fragment that is not spanning is appended to the column list in the complementary branch of the same test",
+	"layout.(*ColumnDetector).separateSpanningFragments|Text,Width,X,isWhitespaceOnly()": "bounding-line bookkeeping loop, not the partition loop",
 }
 
 func lossyFilterRule(c *eng.Ctx, R string, fns []string, floor int) {
@@ -115,4 +115,3 @@ func ruleMergeThreading(c *eng.Ctx) {
 		c.Check(ok, R, "layout.(*BlockDetector).mergeOverlappingBlocks#accumulator", ci.Pos(), "merge(current, next) threads the running result", "mergeBlocks is not applied to the running merge result: after the second merge the blocks merged earlier are forgotten (their text disappears)")
 	}
 }
-
